@@ -40,7 +40,7 @@ INFO = {
 EXPECTED_PROBES = ("fault_enoent", "fault_eacces", "fault_truncate", "fault_replace", "fault_empty", "exec_origin",
                    "folded_recursion", "raise_on_last_line", "raise_on_first_lines", "multiline_statement",
                    "markup_in_source", "bad_markup_in_source", "markup_in_message", "debug_verbosity", "ignored_frames",
-                   "simple_mode")
+                   "simple_mode", "second_render_other_ignore")
 
 _frame_mod = None
 
@@ -69,6 +69,9 @@ def gen(S, tier):
         "verbosity": c.pick([0, 0, 1, 2, 4]), "utf8": c.chance(0.7), "ansi": c.chance(0.5),
         "simple": c.chance(0.12), "ignore": c.pick([None, None, "none", "some", "all"]),
         "two_modules": w.chance(0.4), "fault": None,
+        # the same exception rendered a second time with another ignore pattern (a fresh trace object
+        # and a fresh IO): what the first rendering left behind must not influence the second
+        "ignore2": c.pick([None, None, None, "none", "some", "all"]),
     }
     return sc
 
@@ -79,6 +82,8 @@ def sweep(sc, tier):
 
 
 def simplify(sc):
+    if sc.get("ignore2") is not None:
+        yield dict(sc, ignore2=None)
     for k, v in (("recursion", 0), ("two_modules", False), ("ignore", None), ("utf8", True), ("ansi", False)):
         if sc[k] != v:
             yield dict(sc, **{k: v})
@@ -287,6 +292,26 @@ def _run(sc, res, log, store, r):
     # ---- frame listing and the ignore filter ---------------------------------------------------
     if fault in (None,) and sc["verbosity"] >= 1:
         _check_listing(sc, res, text, ignore_kind, nframes)
+    # ---- second rendering with another ignore pattern -------------------------------------------
+    k2 = sc.get("ignore2")
+    if k2 is not None and fault is None:
+        out2 = SimOutputStream("out2", log, ansi=sc["ansi"], utf8=sc["utf8"])
+        err2 = SimOutputStream("err2", log, ansi=sc["ansi"], utf8=sc["utf8"])
+        io2 = IO(Input(SimInputStream(log, [])), Output(out2, fm), Output(err2, fm))
+        io2.set_verbosity(sc["verbosity"])
+        trace2 = ExceptionTrace(exc)
+        trace2.ignore_files_in({"none": "^/nowhere/", "some": "^" + re.escape(PREFIX + "vendor/"), "all": "^" + re.escape(PREFIX)}[k2])
+        try:
+            trace2.render(io2, False)
+        except Exception as e:
+            res.violate("render_raises", "second_render:" + type(e).__name__, "second rendering raised %s: %s" % (type(e).__name__, str(e)[:100]))
+            return
+        text2 = strip_ansi(out2.data())
+        res.probe("second_render_other_ignore")
+        if type(exc).__name__ not in text2:
+            res.violate("name_missing", "second_render", "class name missing in the second rendering")
+        if sc["verbosity"] >= 1:
+            _check_listing(sc, res, text2, k2, nframes, where="second_render:")
 
 
 _SNIP = re.compile(r"^\s*(?P<mark>[→>])?\s*(?P<no>\d+)(?P<delim>[│|]) ?(?P<code>.*)$")
@@ -344,12 +369,12 @@ def _check_snippet(sc, res, text, src, lineno, fail_path):
 _FRAME = re.compile(r"^\s*(?P<no>\d+|\.\.\.)\s+(?P<path>\S+):(?P<line>\d+) in (?P<fn>\S+)\s*$")
 
 
-def _check_listing(sc, res, text, ignore_kind, nframes):
+def _check_listing(sc, res, text, ignore_kind, nframes, where=""):
     lines = text.split("\n")
     if "Stack trace:" not in text:
         if nframes >= 1 and ignore_kind != "all" and not (ignore_kind == "some" and sc["two_modules"] and nframes <= 1):
             if ignore_kind in (None, "none"):
-                res.violate("listing", "missing", "verbose rendering of %d frames has no stack listing" % (nframes + 1))
+                res.violate("listing", where + "missing", "verbose rendering of %d frames has no stack listing" % (nframes + 1))
         return
     paths = [m.group("path") for m in (_FRAME.match(l) for l in lines) if m]
     paths = [p for p in paths if p.startswith(PREFIX)]  # the harness's own calling frame is not under test
@@ -358,8 +383,8 @@ def _check_listing(sc, res, text, ignore_kind, nframes):
         res.probe("ignored_frames")
         has_vendor = any("vendor/lib_mod.py" in p for p in paths)
         if debug and not has_vendor:
-            res.violate("listing", "ignored_missing_at_debug", "debug verbosity must list frames under the ignored path: %r" % paths)
+            res.violate("listing", where + "ignored_missing_at_debug", "debug verbosity must list frames under the ignored path: %r" % paths)
         if not debug and has_vendor:
-            res.violate("listing", "ignored_shown", "frames under the ignored path are listed below debug verbosity: %r" % paths)
+            res.violate("listing", where + "ignored_shown", "frames under the ignored path are listed below debug verbosity: %r" % paths)
     if ignore_kind == "all" and not debug and paths:
-        res.violate("listing", "ignored_shown", "every frame is under the ignored path, listing shows %r" % paths)
+        res.violate("listing", where + "ignored_shown", "every frame is under the ignored path, listing shows %r" % paths)
